@@ -237,7 +237,7 @@ def parse_expr(s):
 
 
 KEYWORDS = ('spec', 'define', 'axiom', 'lemma', 'func', 'requires', 'ensures', 'assigns', 'allocates',
-            'loop', 'invariant', 'decreases', 'flag', 'ghostvar', 'call', 'import', 'at', 'property', 'end', 'step', 'send', 'guarded', 'uses', 'recv', 'return', 'ghostset', 'store', 'entry')
+            'loop', 'invariant', 'decreases', 'flag', 'ghostvar', 'call', 'import', 'at', 'property', 'end', 'step', 'send', 'guarded', 'uses', 'recv', 'return', 'ghostset', 'store', 'entry', 'complete')
 
 
 def _label(s):
@@ -338,6 +338,11 @@ def parse_contract_text(text, fname='?'):
             elif kw == 'step':
                 lab, r = _label(rest)
                 curloop['step'].append((lab, parse_expr(r), r))
+            elif kw == 'complete':
+                # complete [label]: the loop is left only through its head (all iterations done) or by returning /
+                # panicking: no break, no jump out of the body (structural obligation)
+                lab, r = _label(rest + ' true')
+                curloop.setdefault('complete', []).append(lab or '0')
             elif kw == 'call':
                 # call <callee key> [label] expr   -- assertion at every call site of that callee in this function
                 m = re.match(r'\s*(\S+)\s+(.*)$', rest, re.S)
